@@ -473,3 +473,99 @@ func stripSlices(v ssa.Value) ssa.Value {
 		}
 	}
 }
+
+// leaves returns the values a value can come from, looking through phis, conversions,
+// tuple extraction, type assertions and loads of local cells (flow-insensitive).
+func leaves(v ssa.Value) []ssa.Value {
+	var out []ssa.Value
+	seen := map[ssa.Value]bool{}
+	var walk func(v ssa.Value, depth int)
+	walk = func(v ssa.Value, depth int) {
+		if v == nil || seen[v] || depth > 14 {
+			return
+		}
+		seen[v] = true
+		switch x := v.(type) {
+		case *ssa.Phi:
+			for _, e := range x.Edges {
+				walk(e, depth+1)
+			}
+		case *ssa.ChangeType:
+			walk(x.X, depth+1)
+		case *ssa.Convert:
+			walk(x.X, depth+1)
+		case *ssa.ChangeInterface:
+			walk(x.X, depth+1)
+		case *ssa.MakeInterface:
+			walk(x.X, depth+1)
+		case *ssa.TypeAssert:
+			walk(x.X, depth+1)
+		case *ssa.Extract:
+			switch t := x.Tuple.(type) {
+			case *ssa.TypeAssert:
+				walk(t.X, depth+1)
+			default:
+				out = append(out, v)
+			}
+		case *ssa.UnOp:
+			if x.Op == token.MUL {
+				switch a := x.X.(type) {
+				case *ssa.Alloc:
+					sts := storesTo(a)
+					if len(sts) == 0 {
+						out = append(out, v)
+					}
+					for _, s := range sts {
+						walk(s.Val, depth+1)
+					}
+					return
+				case *ssa.FreeVar:
+					cells := captured(a)
+					if len(cells) == 0 {
+						out = append(out, v)
+					}
+					for _, cell := range cells {
+						if al, ok := cell.(*ssa.Alloc); ok {
+							for _, s := range storesTo(al) {
+								walk(s.Val, depth+1)
+							}
+						} else {
+							walk(cell, depth+1)
+						}
+					}
+					return
+				}
+			}
+			out = append(out, v)
+		default:
+			out = append(out, v)
+		}
+	}
+	walk(v, 0)
+	return out
+}
+
+// callOf returns the call behind a leaf (a call value or an extract of a call tuple) and the
+// result index.
+func callOf(v ssa.Value) (*ssa.Call, int) {
+	switch x := v.(type) {
+	case *ssa.Call:
+		return x, 0
+	case *ssa.Extract:
+		if c, ok := x.Tuple.(*ssa.Call); ok {
+			return c, x.Index
+		}
+	}
+	return nil, 0
+}
+
+// isParam reports whether v is (a copy of) parameter p of its function: the parameter itself
+// or a load of the cell the parameter was spilled to.
+func isParam(v ssa.Value, p *ssa.Parameter) bool {
+	for _, l := range leaves(v) {
+		if l != ssa.Value(p) {
+			return false
+		}
+	}
+	return len(leaves(v)) > 0
+}
